@@ -108,6 +108,28 @@ class Module:
           return st.value
     return None
 
+  def init_fields(self, clsname):
+    """Fields of a plain class whose __init__ only does `self.x = x` per parameter."""
+    q = self.resolve_method(clsname, '__init__')
+    if q is None:
+      return []
+    fn = self.defs[q]
+    params = [a.arg for a in fn.args.args[1:]]
+    got = []
+    for st in fn.body:
+      if isinstance(st, ast.Expr) and isinstance(st.value, ast.Constant):
+        continue
+      ok = (isinstance(st, ast.Assign) and len(st.targets) == 1 and
+            isinstance(st.targets[0], ast.Attribute) and
+            isinstance(st.targets[0].value, ast.Name) and st.targets[0].value.id == 'self' and
+            isinstance(st.value, ast.Name) and st.value.id == st.targets[0].attr)
+      if not ok:
+        raise ContractMisfit('%s.__init__ is no longer a plain field initialiser' % clsname)
+      got.append(st.value.id)
+    if got != params:
+      raise ContractMisfit('%s.__init__ stores %s but takes %s' % (clsname, got, params))
+    return [(p, None) for p in params]
+
   def dataclass_fields(self, clsname):
     """Annotated instance fields in definition order (bases first), no ClassVar."""
     out = []
